@@ -20,17 +20,23 @@ type SOp struct {
 	Ref     int    // index into the ids ever issued in Mailbox; -1 = never-issued id
 	BadID   string // used when Ref == -1
 	Msg     *models.Msg
+	NewCap  int // reopen (C10): 0 = configuration unchanged, n > 0 = restarted with message cap n, -1 = restarted without a cap
 }
 
 func (o SOp) String() string {
 	switch o.Kind {
 	case "add":
 		return fmt.Sprintf("add %q subj=%q from=%v to=%d body=%dB date=%s", o.Mailbox, o.Msg.Subject, o.Msg.From, len(o.Msg.To), len(o.Msg.Body), o.Msg.Date.Format(time.RFC3339Nano))
+	case "addfail":
+		return fmt.Sprintf("add %q body=%dB from a source that fails after %d bytes", o.Mailbox, len(o.Msg.Body), len(o.Msg.Body)/2)
 	case "get", "seen", "remove":
 		if o.Ref < 0 {
 			return fmt.Sprintf("%s %q id=%q(never issued)", o.Kind, o.Mailbox, o.BadID)
 		}
 		return fmt.Sprintf("%s %q #%d", o.Kind, o.Mailbox, o.Ref)
+	}
+	if o.Kind == "reopen" && o.NewCap != 0 {
+		return fmt.Sprintf("reopen with message cap %d", o.NewCap)
 	}
 	return fmt.Sprintf("%s %q", o.Kind, o.Mailbox)
 }
@@ -42,6 +48,8 @@ type storeHistory struct {
 	// optional second client on disjoint mailboxes (C11)
 	Names2 []string
 	Ops2   []SOp
+	// SkipIDs > 0 (C10): the process has already issued that many message ids when the history starts
+	SkipIDs int
 }
 
 func (h *storeHistory) Describe() []string {
@@ -50,6 +58,9 @@ func (h *storeHistory) Describe() []string {
 		l = append(l, "store "+c.String())
 	}
 	l = append(l, "mailboxes "+strings.Join(h.Names, " | "))
+	if h.SkipIDs > 0 {
+		l = append(l, fmt.Sprintf("the process has issued %d message ids before", h.SkipIDs))
+	}
 	for i, o := range h.Ops {
 		l = append(l, fmt.Sprintf("%3d %s", i, o.String()))
 	}
@@ -101,6 +112,11 @@ func genSOps(w *simrt.Choices, names []string, n int, maxBody int, kinds []strin
 			m.Date = baseDate.Add(time.Duration(w.Choose(100000)) * time.Second).Add(time.Duration(w.Choose(1000)) * time.Nanosecond)
 			op.Msg = m
 			issued[mb]++
+		case "addfail":
+			m := &models.Msg{Mailbox: mb, Token: "failing", From: people[0], Subject: "never stored"}
+			m.Body = genBody(w, "failing", []int{2, 300, 9000}[w.Choose(3)])
+			m.Date = baseDate
+			op.Msg = m
 		case "get", "seen", "remove":
 			if issued[mb] > 0 && (avoid["missing-id"] || w.Choose(4) != 0) {
 				op.Ref = w.Choose(issued[mb])
@@ -188,6 +204,20 @@ func (r *storeRig) apply(i int, o SOp) {
 		r.ids[o.Mailbox] = append(r.ids[o.Mailbox], id)
 		r.model.Add(&m)
 		c.Logf("%s add %s -> %s", tag, o.Mailbox, id)
+	case "addfail":
+		// the source of the message fails half-way (the sender went away): the
+		// delivery must be refused and must leave everything as it was
+		m := *o.Msg
+		d := delivery(&m)
+		d.Reader = &failingReader{data: m.Body, left: len(m.Body) / 2}
+		id, err := r.store.AddMessage(d)
+		c.Logf("%s add %s from a failing source -> %q, %s", tag, o.Mailbox, id, errStr(err))
+		if err == nil {
+			c.Failf(tag+"/AddMessage(failing-source)->success", "op %d %s: returned id %q and no error", i, o, id)
+			return
+		}
+		c.Stat("fault.message_source_fails_midway", 1)
+		r.checkAll([]string{o.Mailbox})
 	case "get":
 		id, live := r.idFor(o)
 		got, err := r.store.GetMessage(o.Mailbox, id)
@@ -314,7 +344,7 @@ func (r *storeRig) checkAll(names []string) {
 
 // ---- C07 ----
 
-var c07Kinds = []string{"add", "add", "add", "add", "get", "get", "latest", "list", "seen", "seen", "remove", "remove", "purge", "visit"}
+var c07Kinds = []string{"add", "add", "add", "add", "get", "get", "latest", "list", "seen", "seen", "remove", "remove", "purge", "visit", "addfail"}
 
 func init() {
 	register(&Prop{
@@ -350,6 +380,9 @@ func init() {
 			}
 			c.NonTrivial(rigs[0].model.Hash(), len(h.Ops))
 		},
+		// clock jumps are on (dates are data here): the simulated-time budget must
+		// cover a long history's worth of jumps, nothing in a store waits for time
+		Config:            func(cs Case) simrt.Config { return simrt.Config{MaxSimTime: 100000 * time.Hour} },
 		BudgetIsViolation: true,
 		QuickRuns:         6000,
 		ThoroughRuns:      150000,
@@ -364,4 +397,19 @@ func init() {
 			"file-store ids are treated as opaque text",
 		},
 	})
+}
+
+// failingReader yields left bytes of data and then an error.
+type failingReader struct {
+	data []byte
+	left int
+}
+
+func (f *failingReader) Read(p []byte) (int, error) {
+	if f.left <= 0 {
+		return 0, fmt.Errorf("connection reset by peer (injected)")
+	}
+	n := copy(p, f.data[:f.left])
+	f.data, f.left = f.data[n:], f.left-n
+	return n, nil
 }
